@@ -207,8 +207,18 @@ def harness_call(binary, sub, cases, timeout=600, extra_args=()):
             except json.JSONDecodeError:
                 pass
     if len(res) != len(cases):
-        raise RuntimeError("harness %s: %d results for %d cases (rc=%d)\n%s" % (sub, len(res), len(cases), rc, err[-2000:]))
+        e = HarnessDied("harness %s: %d results for %d cases (rc=%d)\n%s" % (sub, len(res), len(cases), rc, err[-2000:]))
+        # the harness answers one line per case, in order: the first case without an answer is the one during which the
+        # process ended (os.Exit / log.Fatal inside the code under test, a fatal runtime error, a kill)
+        e.sub, e.index, e.rc, e.stderr = sub, len(res), rc, err[-1500:]
+        e.case = cases[len(res)] if len(res) < len(cases) else None
+        e.before = cases[max(0, len(res) - 400):len(res)]
+        raise e
     return res
+
+
+class HarnessDied(RuntimeError):
+    pass
 
 
 # ----------------------------------------------------------------------------- Coq side
